@@ -184,7 +184,7 @@ def extra_checks(pid, tier, seed, exe, workdir):
 EXTRA = {}
 
 HOOK_COMMITS = ["ec0e30b"]
-FIX_COMMITS = ["f38d614", "53a1696", "ab48bfa", "c882549", "be58dcf", "e268d80", "a281c03", "d168209", "866ad45", "ff93241", "ff97c81", "1d033aa", "67b591f", "56a0235", "341c413", "4c925f3"]
+FIX_COMMITS = ["f38d614", "53a1696", "ab48bfa", "c882549", "be58dcf", "e268d80", "a281c03", "d168209", "866ad45", "ff93241", "ff97c81", "1d033aa", "67b591f", "56a0235", "341c413", "4c925f3", "4ee676c", "c7f562b"]
 
 _MODELLED = ("Modelled, not verified: the C++ itself; the theorems are about the Gallina model "
              "(coq/theories/Model), tied to the code only by the correspondence run. ")
@@ -285,7 +285,7 @@ PROPS["C02"] = dict(
     level_note=_MODELLED + "The audit is evaluated on dumps of the real node store; in-place reordering is "
                "covered by C13's scripts. Soundness of the audit w.r.t. the tree-level predicate: see DESIGN.")
 PROPS["C06"] = dict(
-    gens=[("hist", gen.gen_hist, 0.8), ("node-level", gen.gen_C06_nodes, 0.5), ("recycle-cached", gen.gen_recycle_cached, 0.6), ("counter-array", gen.gen_counter, 0.3)], quick=40, thorough=500, rule=_AUDIT_RULE,
+    gens=[("hist", gen.gen_hist, 0.8), ("node-level", gen.gen_C06_nodes, 0.5), ("recycle-cached", gen.gen_recycle_cached, 0.6), ("counter-array", gen.gen_counter, 0.3), ("top-handles", gen.gen_C06_tail_handles, 0.4)], quick=40, thorough=500, rule=_AUDIT_RULE,
     level_text="Proved (RefStoreP): for every history of node creations (unique-table lookup), reference "
                "duplications and drops (recursive reclamation) the recorded counts are exact, an identifier is "
                "live iff referenced, children are live and below their parent, no duplicates, and nothing is "
@@ -301,7 +301,8 @@ PROPS["C06"] = dict(
                "in the C++ runtime is outside what a Gallina model can exhibit.")
 PROPS["C07"] = dict(
     gens=[("hist", lambda r: gen.gen_hist(r, blank=True), 0.7), ("reuse", gen.gen_reuse, 0.6),
-          ("heavy", gen.gen_heavy_ct, 0.2)],
+          ("heavy", gen.gen_heavy_ct, 0.2), ("recycle-cached", gen.gen_recycle_cached, 0.4),
+          ("top-handles", gen.gen_C06_tail_handles, 0.2)],
     quick=30, thorough=300, rule=_AUDIT_RULE +
     "; every script is re-run under 5 other compute-table configurations (style x stale policy x max size x "
     "compression) and once with the caches cleared after every command: all observations must coincide",
@@ -327,7 +328,7 @@ PROPS["C08"] = dict(
     level_note=_MODELLED + "Saturation itself is not mirrored: its result is compared with the proved BFS "
                "result (partial); distance-valued variants not covered yet.")
 PROPS["C09"] = dict(
-    gens=[("image", gen.gen_C09, 0.8), ("reuse-image", lambda r: gen.gen_reuse(r, "image"), 0.4)],
+    gens=[("image", gen.gen_C09, 0.8), ("reuse-image", lambda r: gen.gen_reuse(r, "image"), 0.4), ("small-top-skipped", gen.gen_C09_skiptop, 0.4), ("distance-images", gen.gen_C09_dist, 0.5)],
     quick=50, thorough=500,
     level_text="Model = the relational definition (exists x. S(x) and R(x,y); sum_x v(x)M(x,y)) realised as the "
                "canonical diagram of that function (of_fun, proved to evaluate to it and to be reduced). Tie: "
@@ -354,7 +355,7 @@ PROPS["C15"] = dict(
 
 PROPS["C12"] = dict(
     gens=[("hist", lambda r: gen.gen_hist(r, fanin=False), 0.6), ("reuse", gen.gen_reuse, 0.4),
-          ("recycle-cached", gen.gen_recycle_cached, 0.5)],
+          ("recycle-cached", gen.gen_recycle_cached, 0.5), ("top-handles", gen.gen_C06_tail_handles, 0.3)],
     quick=30, thorough=300, rule=_AUDIT_RULE +
     "; every script is re-run under 6 other (storage flag, memory manager, deletion policy) combinations: all "
     "observations (tables, canonical dumps, node and edge counts, cardinalities) must coincide",
